@@ -6,7 +6,7 @@ from spec import registers as SR
 from ..bits import BV, lit
 from ..interp import State, Unsupported
 from ..values import UNIT, Enum, Opaque, Ptr, Ref, Struct
-from .common import SIZES, U16, adt, arg_obj, bv, enum_val, eval_value, fn_site, inner, same, size_ty, sl
+from .common import asm_not_pure, SIZES, U16, adt, arg_obj, bv, enum_val, eval_value, fn_site, inner, same, size_ty, sl
 from .c01 import IMPLS, OPS, SIZES3, lbl
 from .c16 import decode, shape
 from .mapper import MP, PG, MapperLab, flag_args, map_args
@@ -47,6 +47,7 @@ def run(chk):
     chk.guard('invlpgb', 'flush_broadcast', lambda: broadcast(chk))
     chk.guard('invlpgb', 'builder', lambda: builder(chk))
     chk.guard('invlpgb', 'flush loop', lambda: flush_loop(chk))
+    chk.guard('asm-options', 'tlb.rs', lambda: asm_not_pure(chk, chk.I, 'asm-options', ['src/instructions/tlb.rs'], 4))
     chk.floor('obligations', len(chk.obs), 74)
 
 
@@ -293,7 +294,13 @@ def flush_loop(chk):
         good = bool(loops) and bool(rets)
         why = set()
         for o in loops:
-            ev = [e for e in o.st.events if e[0] in ('call', 'minmax', 'branch')]
+            # only what happens inside the iteration counts: a distance or comparison computed before the loop is about
+            # the initial start, not the current one
+            heads = [i for i, e in enumerate(o.st.events) if e[0] == 'loop-head']
+            if not heads:
+                why.add('no loop header on a loop path')
+                continue
+            ev = [e for e in o.st.events[heads[-1]:] if e[0] in ('call', 'minmax', 'branch')]
             reqs = [e for e in ev if e[0] == 'call' and e[1] == fb]
             if len(reqs) != 1:
                 why.add('%d requests in one iteration' % len(reqs))
